@@ -19,6 +19,8 @@ pub enum Op11 {
     },
     Merge { i: usize, j: usize },
     Clone { i: usize, j: usize },
+    /// merge estimator i with a clone of itself `times` times (counts beyond 2^53 are reached this way)
+    SelfMerge { i: usize, times: u8 },
 }
 
 #[derive(Clone, Debug, Serialize, Deserialize)]
@@ -83,7 +85,7 @@ fn run11<T: Est>(c: &H11, o: &mut Obs) -> TestResult {
             }
             Op11::Merge { i, j } => {
                 let (i, j) = (i % POOL, j % POOL);
-                if n[i] + n[j] > 1 << 50 {
+                if n[i].saturating_add(n[j]) > 1 << 62 {
                     // repeated self-merges double the count; u64 overflow of len() is outside the property
                     continue;
                 }
@@ -102,6 +104,18 @@ fn run11<T: Est>(c: &H11, o: &mut Obs) -> TestResult {
                 pool[i] = pool[j].clone();
                 n[i] = n[j];
                 merges[i] = merges[j];
+            }
+            Op11::SelfMerge { i, times } => {
+                let i = i % POOL;
+                for _ in 0..*times {
+                    if n[i] > 1 << 61 {
+                        break;
+                    }
+                    let b = pool[i].clone();
+                    pool[i].merge_(&b);
+                    n[i] += n[i];
+                    merges[i] = merges[i].saturating_add(1);
+                }
             }
         }
         lens_ok(&pool, &n, &format!("step {} ({:?})", step, op), o)?;
@@ -151,6 +165,9 @@ fn run11<T: Est>(c: &H11, o: &mut Obs) -> TestResult {
             if !n[i].is_power_of_two() {
                 o.class("probed estimator built by merges, n not a power of two");
             }
+        }
+        if n[i] > 1 << 53 {
+            o.class("probed estimator holds more than 2^53 observations");
         }
         if n[i] == 0 && merges[i] > 0 {
             o.class("probed estimator empty but produced by merges");
@@ -229,6 +246,7 @@ pub fn op_strategy(kind: Kind) -> impl Strategy<Value = Op11> {
         8 => (0..POOL, first_value(kind), second_value(kind)).prop_map(|(i, x, y)| Op11::Add { i, x, y }),
         4 => (0..POOL, 0..POOL).prop_map(|(i, j)| Op11::Merge { i, j }),
         1 => (0..POOL, 0..POOL).prop_map(|(i, j)| Op11::Clone { i, j }),
+        1 => (0..POOL, prop_oneof![2 => 1u8..5, 1 => 50u8..62]).prop_map(|(i, times)| Op11::SelfMerge { i, times }),
     ]
 }
 
